@@ -6,7 +6,7 @@
    fact used about it is the recorded hypothesis 0 <= disc v m <= v (checked on every real call
    by the harness, and proved for the ideal rational formula, [cubic_discount_within_value]). *)
 From Coq Require Import List ZArith NArith Bool Permutation.
-From GQ Require Import Generated.C20Params Model.C20 Proofs.C20.
+From GQ Require Import Generated.C20Params Model.C20 Proofs.C20 Proofs.C20_Last.
 Import ListNotations.
 Local Open Scope Z_scope.
 
@@ -220,6 +220,18 @@ Theorem slip_respected_refuted :
     o_before o < after_slip (o_e o).
 Proof. exact final_slip_refuted. Qed.
 Print Assumptions slip_respected_refuted.
+
+(* ... but it does hold for the LAST conversion accepted by pass one (every later conversion was
+   rejected there): the amount it was tested against is the final total, so the amount finally
+   converted is the pass-one amount.  In particular a block with a single conversion honours the
+   bound.  (This is what separates the recorded finding from a regression in the harness monitor.) *)
+Theorem slip_respected_for_last_accepted : forall disc h knew etxs r pre o post,
+  inputs_ok h knew etxs -> reprice disc h knew etxs = Some r ->
+  r_out r = pre ++ o :: post -> o_kind o = KConverted ->
+  (forall o', In o' post -> e_conv (o_e o') = true -> 0 < e_value (o_e o') -> o_p1 o' < after_slip (o_e o')) ->
+  o_before o = o_p1 o /\ after_slip (o_e o) <= o_before o.
+Proof. exact last_accepted_keeps_slip. Qed.
+Print Assumptions slip_respected_for_last_accepted.
 
 Theorem reprice_values_never_negative : forall disc h knew etxs r o,
   inputs_ok h knew etxs -> reprice disc h knew etxs = Some r -> In o (r_out r) -> 0 <= o_value o.
